@@ -50,12 +50,10 @@ Theorem C02_parse_yield :
   forall fok ts v, parse_vcl fok ts = POK v -> no_eof ts = true -> ts = flat_map ystmt (vstmts v).
 Proof. exact parse_vcl_yield. Qed.
 
-(* snippets: the same, except that the snippet loop (which tests the token BEHIND cur for EOF)
-   drops at most one trailing token without a diagnostic; the Example in Proofs/ParseDeclYield.v
-   (`esi; foo`) shows that this happens *)
+(* snippets: the same (exact since the dangling-token fix of ParseSnippetVCL: the statement loop
+   now runs on cur, so a last token is parsed or reported, never dropped) *)
 Theorem C02_parse_snippet_yield :
-  forall fok ts v, parse_snippet fok ts = POK v -> no_eof ts = true ->
-    exists trailing, ts = flat_map ystmt (vstmts v) ++ trailing /\ (length trailing <= 1)%nat.
+  forall fok ts v, parse_snippet fok ts = POK v -> no_eof ts = true -> ts = flat_map ystmt (vstmts v).
 Proof. exact parse_snippet_yield. Qed.
 
 (* Operators group as the documented table states, parentheses overriding: for EVERY canonical
